@@ -363,6 +363,15 @@ impl<W: Write + io::Seek> ZipWriter<W> {
     where
         S: Into<String>,
     {
+        // Refuse a name the 16-bit length field cannot hold before anything is changed: once the
+        // previous entry has been closed, a failure would leave no entry open for `finish` to close.
+        let name = name.into();
+        if name.as_bytes().len() > u16::MAX as usize {
+            return Err(ZipError::Io(io::Error::new(
+                io::ErrorKind::InvalidInput,
+                "File name is too long",
+            )));
+        }
         self.finish_file()?;
 
         let raw_values = raw_values.unwrap_or(ZipRawValues {
@@ -387,7 +396,7 @@ impl<W: Write + io::Seek> ZipWriter<W> {
                 crc32: raw_values.crc32,
                 compressed_size: raw_values.compressed_size,
                 uncompressed_size: raw_values.uncompressed_size,
-                file_name: name.into(),
+                file_name: name,
                 file_name_raw: Vec::new(), // Never used for saving
                 extra_field: Vec::new(),
                 file_comment: String::new(),
